@@ -29,7 +29,9 @@ def cases(prop, tier, seed):
                                 cls=f"IndexClassifierWrapper[{clfname}{',weights' if (t // 4) % 2 else ''}]",
                                 key=["C19", clfname, t]))
     elif prop == "C20":
-        inner = [n for n, z in ZOO.items() if not n.startswith(("SubSampling", "Parallel")) and z["kind"] == "clf" and not z["slow"]]
+        # inner strategies with a known C01 finding of their own (duplicates under ties) are not used to judge the wrappers
+        inner = [n for n, z in ZOO.items() if not n.startswith(("SubSampling", "Parallel", "TypiClust", "BatchBALD")) and z["kind"] == "clf"
+                 and not z["slow"]]
         for name in inner:
             for t in range(4 * reps):
                 out.append(dict(kind="C20", inner=name, dseed=int(rs.randint(1 << 30)), n=int(rs.randint(6, 11)), nl=int(rs.choice([0, 2, 3])),
@@ -176,7 +178,9 @@ def run_c20(case, fail):
         qi = None
         if z["samplewise"][0] and z["rows"]:
             fail("C20.parallel_raised", f"{type(e).__name__}: {str(e)[:100]}")
-    if qi is not None and z["samplewise"][0] and z["rows"] and name != "RandomSampling":
+    # the parallel wrapper documents: the inner strategy must score candidate rows independently and deterministically
+    # (RandomSampling draws its utilities, vote entropy uses randomly tie-broken hard votes)
+    if qi is not None and z["samplewise"][0] and z["rows"] and name not in ("RandomSampling", "QBC-vote_entropy"):
         if np.shape(Up) != np.shape(Ui) or not np.allclose(Up, Ui, equal_nan=True, atol=1e-9):
             fail("C20.parallel_utilities_differ", f"n_jobs={case['jobs']}: utilities differ from the wrapped strategy's")
         elif list(np.asarray(qp).ravel()) != list(np.asarray(qi).ravel()):
@@ -335,8 +339,11 @@ def run_c07(case, fail):
         per = {}
         for s, an in pairs:
             per[s] = per.get(s, 0) + 1
+        av = {s: sum(1 for p in avail if p[0] == s) for s in per}
+        # the requested number may only be exceeded when the chosen samples cannot take the batch otherwise
+        could_fit = sum(min(naps, av[s]) for s in per) >= len(pairs)
         for s, c in per.items():
-            if c > max(naps, 1) and sum(1 for p in avail if p[0] == s) >= c and len(per) * naps >= len(pairs):
+            if c > max(naps, 1) and could_fit:
                 fail("C07.too_many_annotators_for_a_sample", f"sample {s} received {c} annotators, requested {naps} per sample ({pairs})")
                 break
 
